@@ -103,6 +103,10 @@ type sPod struct {
 	Phase       string     `json:"phase,omitempty"`         // bound pods: "Succeeded"
 	Terminating bool       `json:"terminating,omitempty"`   // bound pods with a deletion timestamp
 	Resched     bool       `json:"rescheduled,omitempty"`   // bound pod of a candidate node that is part of the batch
+	// bound pods: an earlier incarnation under the same name (other UID) carried PrevAnti; cluster state saw
+	// UpdatePod(old) and then UpdatePod(new) without a delete in between. Only the new object exists in the API.
+	Recreated bool    `json:"recreated,omitempty"`
+	PrevAnti  []sTerm `json:"previousIncarnationAntiAffinity,omitempty"`
 }
 type sNode struct {
 	Name    string            `json:"name"`
@@ -470,6 +474,17 @@ func genScenario(r *kit.Rand) sCase {
 				pickNs(r, &t)
 				bp.Anti = []sTerm{t}
 			}
+			if r.Chance(1, 4) {
+				// re-created under the same name: the old incarnation had another term, the same term, or none
+				bp.Recreated = true
+				switch r.Intn(4) {
+				case 0:
+					bp.PrevAnti = bp.Anti
+				case 1:
+				default:
+					bp.PrevAnti = []sTerm{{Key: kit.Pick(r, []string{zoneKey, hostKey}), Sel: pickSel(r, kit.Pick(r, apps))}}
+				}
+			}
 			sc.Bound = append(sc.Bound, bp)
 		}
 	}
@@ -800,6 +815,15 @@ func runScenario(c *kit.Ctx, sc sCase) {
 		if bp.Terminating {
 			p.Finalizers = []string{"example.com/hold"}
 		}
+		if bp.Recreated {
+			prev := bp
+			prev.Anti = bp.PrevAnti
+			old := prev.k8s()
+			old.UID = types.UID("uid-old-" + bp.NS + "-" + bp.Name)
+			if err := cluster.UpdatePod(ctx, old); err != nil && bp.Node != "gone-node" {
+				panic(err)
+			}
+		}
 		kit.Apply(ctx, cl, p)
 		if bp.Terminating {
 			if err := cl.Delete(ctx, p); err != nil {
@@ -1033,6 +1057,12 @@ func emitWorld(c *kit.Ctx, sc sCase, results provscheduling.Results, byUID map[t
 		}
 	}
 	for _, bp := range sc.Bound {
+		if bp.Recreated {
+			feat["dim:bound-pod-recreated-under-same-name"] = true
+			if len(bp.Anti) > 0 && len(bp.PrevAnti) > 0 && fmt.Sprint(bp.Anti) != fmt.Sprint(bp.PrevAnti) {
+				feat["dim:bound-pod-recreated-with-other-anti-affinity-term"] = true
+			}
+		}
 		switch {
 		case bp.Resched:
 			feat["dim:bound-pod-rescheduled(excludedPods)"] = true
@@ -1291,6 +1321,14 @@ func corpus() []sCase {
 			Nodes: []sNode{{Name: "node-0", Labels: map[string]string{hostKey: "node-0", ctKey: "on-demand", zoneKey: "z1"}}},
 			Bound: []sPod{{Name: "bound-0", NS: "ns1", Labels: app("a"), CPU: "100m", Node: "node-0", Tolerates: true}},
 			Batch: []sPod{{Name: "b-0", NS: "ns1", Labels: app("b"), CPU: "300m", NodeSel: map[string]string{zoneKey: "z1"}, Anti: []sTerm{{Key: zoneKey, Sel: selfSel("a")}}}}},
+		// a running pod was deleted and re-created under the same name with another required anti-affinity term and cluster
+		// state never saw the delete: the live term (against app=b) must be enforced, the stale one (against app=a) must not
+		{Kind: "solve", Workers: 1, Pools: []sPool{{Name: "pool-a", Weight: 10}},
+			Nodes: []sNode{{Name: "node-0", Labels: map[string]string{hostKey: "node-0", ctKey: "on-demand", zoneKey: "z1"}}},
+			Bound: []sPod{{Name: "bound-0", NS: "ns1", Labels: app("x"), CPU: "100m", Node: "node-0", Tolerates: true, Recreated: true,
+				PrevAnti: []sTerm{{Key: zoneKey, Sel: selfSel("a")}}, Anti: []sTerm{{Key: zoneKey, Sel: selfSel("b")}}}},
+			Batch: []sPod{{Name: "b-0", NS: "ns1", Labels: app("b"), CPU: "300m", NodeSel: map[string]string{zoneKey: "z1"}},
+				{Name: "a-0", NS: "ns1", Labels: app("a"), CPU: "300m", NodeSel: map[string]string{zoneKey: "z1"}}}},
 		// matchLabelKeys: two bound pods of revision 1 in z1 must not count for the revision-2 carriers
 		{Kind: "solve", Workers: 1, Pools: []sPool{{Name: "pool-a", Weight: 10}},
 			Nodes: []sNode{{Name: "node-0", Labels: map[string]string{hostKey: "node-0", ctKey: "on-demand", zoneKey: "z1"}}},
